@@ -199,7 +199,8 @@ def run_history(ctx, vfs, iface, app, url_path, file_path, seq, start_frac, zone
                                   f"the entity tag of version {j['ver']} still revalidates for version {cur['ver']}")
                 elif must_full and st != 200:
                     why = "size-change" if j["size"] != cur["size"] else "timestamp-change"
-                    sec = "same-second" if (int(j["m"]) == int(cur["m"]) and int(j["c"]) == int(cur["c"])) else "different-second"
+                    # (a bare If-Modified-Since is a date compared with the file's change time: what counts for it is whether THAT moved to another second)
+                    sec = "same-second" if (int(j["c"]) == int(cur["c"]) and (base == "lm" or int(j["m"]) == int(cur["m"]))) else "different-second"
                     vform = {"lm": "last-modified-only", "both": "etag+last-modified"}.get(base, "etag-form:" + base)
                     ctx.violation(f"stale-304|{vform}|{sec}|{why}", case,
                                   f"step {step} {op}: validators of version {j['ver']} (size {j['size']}, mtime {j['m']}) got 304 although the file is "
@@ -220,7 +221,7 @@ def run_history(ctx, vfs, iface, app, url_path, file_path, seq, start_frac, zone
     return nontriv
 
 
-REGRESSION = [("truncate0", "adv1", "other-keepm", "other-keepm", "list-long", "etag0"), ("adv1", "same", "back2.5", "same", "etag0"), ("back2.5", "same", "etag"), ("list-long",), ("etag-range",), ("lm-range",), ("other", "etag-range"), ("adv1", "other-keepm", "lm"), ("adv2.5", "other-keepm", "both"), ("list-empty",), ("list-comma",), ("other", "both"), ("weaklist",), ("list-last",), ("other", "lm"), ("adv1", "touch", "etag"), ("same", "adv2.5", "etag0"),
+REGRESSION = [("etag", "adv2.5", "other", "back2.5", "other-keepm", "lm"), ("truncate0", "adv1", "other-keepm", "other-keepm", "list-long", "etag0"), ("adv1", "same", "back2.5", "same", "etag0"), ("back2.5", "same", "etag"), ("list-long",), ("etag-range",), ("lm-range",), ("other", "etag-range"), ("adv1", "other-keepm", "lm"), ("adv2.5", "other-keepm", "both"), ("list-empty",), ("list-comma",), ("other", "both"), ("weaklist",), ("list-last",), ("other", "lm"), ("adv1", "touch", "etag"), ("same", "adv2.5", "etag0"),
               ("other", "adv1", "other", "lm0"), ("adv0.4", "same", "both"), ("touch", "weak"), ("adv1", "same", "lm")]
 
 
